@@ -297,11 +297,23 @@ func (i *Interpreter) Define(clauseText string) error {
 	if err != nil {
 		return fmt.Errorf("parsing failed: %v", err)
 	}
-	i.resetInteractiveDefs(buffer)
-	programInfo, err := analysis.AnalyzeOneUnit(unit, i.knownPredicates)
+	// Analyze against the predicates known without the current interactive
+	// definitions, which the new buffer replaces. Nothing is changed until the
+	// analysis succeeds, so a rejected definition leaves the state as it was.
+	known := make(map[ast.PredicateSym]ast.Decl, len(i.knownPredicates))
+	for sym, decl := range i.knownPredicates {
+		known[sym] = decl
+	}
+	if i.hasInteractiveDefs() {
+		for _, sym := range i.sourceFragments[interactivePath].introduced {
+			delete(known, sym)
+		}
+	}
+	programInfo, err := analysis.AnalyzeOneUnit(unit, known)
 	if err != nil {
 		return fmt.Errorf("analysis failed: %v", err)
 	}
+	i.resetInteractiveDefs(buffer)
 	i.pushSourceFragment(interactivePath, []parse.SourceUnit{unit}, programInfo)
 	// We run evaluation every time a line is added. Alternatively, we could
 	// let the user control when to evaluate rules.
